@@ -69,7 +69,7 @@ def generate(tier: str, templates=None) -> fx.TlcResult:
         return CFG.format(names=tla_set(NAMES), pairs=tla_set(PAIRS_QUICK if tier == 'quick' else NAMES), solo=tla_set(SOLO),
                           pool=tla_set(pool), pool2=tla_set(pool + POOL2_EXTRA), first=tla_set(groups[i][1]), tpl=', '.join(map(str, groups[i][0])))
 
-    res = fx.run_tlc_sharded('MC_Terms', cfg, len(groups), workers=2, parallel=12)
+    res = fx.run_tlc_sharded('MC_Terms', cfg, len(groups), workers=2, parallel=12, xmx='2g')
     if res.violated:
         raise fx.MachineryError(f'MC_Terms violates {res.violated}:\n' + res.stdout[-3000:])
     return res
